@@ -37,7 +37,14 @@ func c24StartPeerStub(s *Store, cfg *peer.Config, bootstrapPeers []myraft.Peer) 
 	return nil, nil
 }
 
+// c24BuilderFails: the peer builder refuses the next region (e.g. this store
+// holds no replica of it), so a split has to undo its parent update.
+var c24BuilderFails bool
+
 func c24Builder(meta manifest.RegionMeta) (*peer.Config, error) {
+	if c24BuilderFails {
+		return nil, fmt.Errorf("peer builder: no replica of region %d on this store", meta.ID)
+	}
 	return &peer.Config{
 		RaftConfig: myraft.Config{ID: 100 + meta.ID, ElectionTick: 5, HeartbeatTick: 1, MaxSizePerMsg: 1 << 20, MaxInflightMsgs: 256, PreVote: true},
 		Transport:  c24NoopTransport{},
@@ -178,7 +185,13 @@ func VerifC24Split() {
 	if sym.Int("child_start_from_split_key", 0, 1) == 1 {
 		cmd.Child.StartKey = nil
 	}
+	// the child peer may fail to start (the split then has to leave the catalog as it was)
+	c24BuilderFails = sym.Int("child_peer_fails_to_start", 0, 1) == 1
 	err := w.s.handleSplitCommand(cmd)
+	if c24BuilderFails {
+		sym.Assert(err != nil, "failed-child-start-is-reported")
+	}
+	c24BuilderFails = false
 	if err != nil {
 		sym.Reached("split-refused")
 	} else {
